@@ -38,6 +38,9 @@ SITES = [
     ("rotMsgStale", "src/crypto/rotate.rs", r"fn process_message\(&mut self, msg: RotationMessage\) -> Option<RotatedKey> \{\s*if ([^{};]*?) \{\s*return None;", 1,
      "(msgId selfId : Nat)", {"msg.message_id": "msgId", "self.message_id": "selfId"},
      "RotationState::process_message: a rotation message that is not newer than the last one handled is ignored"),
+    ("retryAllowed", "src/crypto/init.rs", r"\} else if ([^{};]*?) \{\s*self\.failed_retries \+= 1;\s*self\.repeat_last_message\(out\);", 1,
+     "(retries : Nat)", {"self.failed_retries": "retries"},
+     "InitState::every_second: the stored handshake message is sent once more"),
 ]
 
 OPS = {"<=": "≤", ">=": "≥", "==": "=", "!=": "≠", "<": "<", ">": ">"}
@@ -70,7 +73,7 @@ def translate_condition(cond, table, site):
 
 
 def generate(repo):
-    out = ["/- GENERATED by /verif/translate/translate.py (guards.py) from comparison guards in src/cloud.rs, src/table.rs, src/crypto/core.rs, src/crypto/rotate.rs — do not edit. -/",
+    out = ["/- GENERATED by /verif/translate/translate.py (guards.py) from comparison guards in src/cloud.rs, src/table.rs, src/crypto/core.rs, src/crypto/rotate.rs, src/crypto/init.rs — do not edit. -/",
            "import VpnCloud.Generated.Consts", "namespace VpnCloud.Generated", ""]
     for name, rel, rx, count, params, table, doc in SITES:
         src = open(os.path.join(repo, rel)).read()
